@@ -208,7 +208,22 @@ func init() {
 			if k == nil {
 				return fmt.Errorf("shiftConstError: binaryOp(ast.OperatorGreaterEqual, K) not found")
 			}
-			fmt.Fprintf(b, "(* constant.go shiftConstError: a left shift count >= K is rejected *)\nDefinition gen_shift_limit : Z := %s.\n\n", zlit(k))
+			fmt.Fprintf(b, "(* constant.go shiftConstError: a left shift count >= K is rejected (for a non-zero left operand) *)\nDefinition gen_shift_limit : Z := %s.\n\n", zlit(k))
+			// the limit of every constant shift count: c.binaryOp(ast.OperatorGreater, int64Const(K))
+			var m constant.Value
+			ast.Inspect(fd.Body, func(n ast.Node) bool {
+				if ce, ok := n.(*ast.CallExpr); ok {
+					if se, ok := ce.Fun.(*ast.SelectorExpr); ok && se.Sel.Name == "binaryOp" && len(ce.Args) == 2 &&
+						types.ExprString(ce.Args[0]) == "ast.OperatorGreater" {
+						m = constOf(p, ce.Args[1])
+					}
+				}
+				return true
+			})
+			if m == nil {
+				return fmt.Errorf("shiftConstError: binaryOp(ast.OperatorGreater, K) not found")
+			}
+			fmt.Fprintf(b, "(* constant.go shiftConstError: a shift count > K is rejected *)\nDefinition gen_shift_count_max : Z := %s.\n\n", zlit(m))
 		}
 		// maxUnsignedValues / maxBigUnsignedValues, indexed by kind - reflect.Uint
 		for _, tbl := range []string{"maxUnsignedValues", "maxBigUnsignedValues"} {
